@@ -130,20 +130,11 @@ def build(ctx, hist, lits, qtable, nq_per_mime, extra, full, interleave=False, b
         items += qs[prev:]
     else:
         items = regs + qs
-    # which registration each query reaches, given the registrations made before it
-    sofar, hits = [], {}
-    for it in items:
-        if 'k' in it:
-            sofar.append(it)
-        else:
-            idx, _ = predict(sofar, it['mime'])
-            if idx is not None:
-                hits[idx] = hits.get(idx, 0) + 1
-    for i, r in enumerate(regs):
+    for r in regs:
         if r['k'] in ('AddCmd', 'AddCmdRegexp'):
-            # $in/$out argument forms only where the command is invoked at most once (known finding:
-            # later invocations reuse the first temp file); stdin/stdout form otherwise
-            r['cmd'] = rnd.choice([1, 2, 3, 4]) if hits.get(i, 0) <= 1 else 1
+            # stdin/stdout form or the $in / $in $out / $in.ext --o=$out.ext temp-file forms, invoked as often as the
+            # queries happen to reach them (the shell forms cost two processes per call, hence the weights)
+            r['cmd'] = rnd.choice([1, 1, 1, 2, 2, 3, 4])
     return dict(items=items)
 
 
@@ -222,17 +213,17 @@ def describe(line, whys):
 
 
 def cmd_protocol(ctx):
-    """Design model of the command minifier's temp-file protocol (spec/CmdProto.tla): the proposed patch (argument
-    vector copied per call) satisfies EachCallOwnInput for every argument form; the code as it is (shared vector)
-    violates it for the $in / $in $out forms - the design-level explanation of the pinned known finding.
-    Information only: verdicts come from the replayed behaviours."""
+    """Design model of the command minifier's temp-file protocol (spec/CmdProto.tla).  CmdProto.cfg is the protocol
+    of the code (argument vector copied per call, fix fd040d4): EachCallOwnInput must hold for every argument form.
+    CmdProto_shared.cfg is the earlier wrong design (shared vector): TLC must find it violating the invariant,
+    otherwise the invariant is vacuous (machinery problem, exit 2)."""
     res = {}
-    r = vlib.tlc_mc(ctx, 'CmdProto', 'CmdProto_fixed.cfg', workers=1, heap='1g', timeout=300)
-    res['patched (argument vector copied per call), forms: $in $out | $in | $out | none'] = 'EachCallOwnInput holds (%d states)' % r['distinct']
-    r = vlib.tlc(ctx, 'CmdProto', 'CmdProto_current.cfg', workers=1, heap='1g', timeout=300)
-    res['as in the code (shared argument vector), forms with $in/$out'] = \
-        'EachCallOwnInput violated (as the real code: see known findings)' if 'EachCallOwnInput' in r['invariant_violations'] \
-        else 'DRIFT: design model of the current code no longer shows the defect'
+    r = vlib.tlc_mc(ctx, 'CmdProto', 'CmdProto.cfg', workers=1, heap='1g', timeout=300)
+    res['argument vector copied per call (the code), forms: $in $out | $in | $out | none'] = 'EachCallOwnInput holds (%d states)' % r['distinct']
+    r = vlib.tlc(ctx, 'CmdProto', 'CmdProto_shared.cfg', workers=1, heap='1g', timeout=300)
+    if 'EachCallOwnInput' not in r['invariant_violations']:
+        raise vlib.Infra('vacuity guard: CmdProto with the shared argument vector does not violate EachCallOwnInput:\n' + r['out'][-1500:])
+    res['wrong design (shared argument vector) - vacuity guard'] = 'EachCallOwnInput violated, as it must be'
     return res
 
 
@@ -308,10 +299,6 @@ def run(ctx):
     if bad:
         ctx.coverage['rejections'] = len(bad)
         ctx.coverage['rejections_reproduced'] = reproduced
-    if pinned and not any(i >= ngen for i in bad):
-        # the real code no longer shows the pinned defect while CmdProto's "current" configuration still models it
-        ctx.coverage['cmd_protocol_design']['note'] = ('DRIFT: the pinned $in/$out witnesses are accepted on this tree; '
-                                                       'CmdProto with Shared = TRUE no longer describes the code')
 
     # evidence, measured on this run
     nsteps = 0
@@ -349,8 +336,9 @@ def run(ctx):
         rule='a case is (registration history, operation, media type string); non-trivial = at least two registrations '
              'compete for the mimetype (literal vs pattern, overlapping patterns, re-registration) or the media type '
              'carries parameters.  Histories: every sequence of <= %d registrations over 6 kinds x 3 targets (TLC), '
-             'plus TLC -simulate walks to 8 registrations.  Excluded construct (known finding, pinned witness kept): a '
-             'command registered with $in/$out arguments being invoked more than once on the same registry.' % maxlen,
+             'plus TLC -simulate walks to 8 registrations.  Commands come in four argument forms (stdin/stdout, $in, $in $out, '
+             '$in.ext --o=$out.ext) and are invoked repeatedly; the former witnesses of the shared-Args defect (fixed: '
+             'fd040d4) are replayed as ordinary regression cases.' % maxlen,
         samples=samples,
         exhaustive=not quick,
         exhaustive_bound=('model checking: all registration histories of length <= %d over {Add,AddFunc,AddCmd,AddRegexp,'
